@@ -203,6 +203,18 @@ func RunCheck(opts CheckOpts) *CheckReport {
 		rep.ExitCode = 2
 		return rep
 	}
+	if gen, gerr := overlayFor(opts.Prop, repoDir()); gerr != nil {
+		return fail("harness generation: %v", gerr)
+	} else if len(gen) > 0 {
+		merged := map[string][]byte{}
+		for k, v := range opts.Overlay {
+			merged[k] = v
+		}
+		for k, v := range gen {
+			merged[k] = v
+		}
+		opts.Overlay = merged
+	}
 	cs, err := LoadContracts(repoDir(), filepath.Join(VerifDir, "contracts/schemas"), filepath.Join(VerifDir, "contracts/stdlib"), opts.Overlay)
 	if err != nil {
 		return fail("contracts: %v", err)
@@ -374,7 +386,8 @@ func RunCheck(opts CheckOpts) *CheckReport {
 	known := loadKnown()
 
 	// classify
-	var nProof, nDischarged, nProbe, nProbeOK int
+	var nProof, nDischarged, nProbe, nProbeOK, nBounded, nBoundedOK int
+	boundedFuncs := map[string]string{}
 	byBackend := map[string]int{}
 	byMode := map[string]int{}
 	var solverTime, maxTime float64
@@ -410,14 +423,21 @@ func RunCheck(opts CheckOpts) *CheckReport {
 			continue
 		}
 		if r.O.Bounded != "" {
-			// bounded stand-ins are run but not counted as proof
-		}
-		nProof++
-		if r.OK {
-			nDischarged++
-			byBackend[r.Ans.Solver]++
-			byMode[r.O.Mode]++
-			continue
+			// bounded stand-ins are checked (a failure is still reported) but never counted as proved
+			nBounded++
+			boundedFuncs[r.O.Func] = r.O.Bounded
+			if r.OK {
+				nBoundedOK++
+				continue
+			}
+		} else {
+			nProof++
+			if r.OK {
+				nDischarged++
+				byBackend[r.Ans.Solver]++
+				byMode[r.O.Mode]++
+				continue
+			}
 		}
 		if r.Ans.Result == "sat" {
 			viols = append(viols, viol{r.O.Name, "counterexample", "", r})
@@ -632,6 +652,7 @@ func RunCheck(opts CheckOpts) *CheckReport {
 		"solver_time_max_s": round3(maxTime),
 		"vacuity_probes":  map[string]int{"run": nProbe, "sat_as_expected": nProbeOK},
 		"dead_fail_clauses": dead,
+		"bounded":         map[string]any{"note": "bounded stand-ins: checked on every run, NOT counted in obligations/discharged", "obligations_checked": nBounded, "passed": nBoundedOK, "functions": boundedFuncs},
 		"rejected":        rejected,
 		"known_findings":  knownLines,
 		"load_s":          round3(loadS),
@@ -654,8 +675,12 @@ func RunCheck(opts CheckOpts) *CheckReport {
 	os.MkdirAll(filepath.Join(VerifDir, "evidence"), 0o755)
 	data, _ := json.MarshalIndent(ev, "", " ")
 	os.WriteFile(filepath.Join(VerifDir, "evidence", opts.Prop+".json"), data, 0o644)
-	say("%s: %d functions, %d/%d obligations discharged, %d/%d probes ok, %d violation(s), %d known finding(s), %.1fs (load %.1fs, vcgen %.1fs)",
-		opts.Prop, len(frs), nDischarged, nProof, nProbeOK, nProbe, nviol, len(rep.Known), rep.Wall, loadS, genS)
+	bnd := ""
+	if nBounded > 0 {
+		bnd = fmt.Sprintf(", bounded stand-ins %d/%d (not counted)", nBoundedOK, nBounded)
+	}
+	say("%s: %d functions, %d/%d obligations discharged, %d/%d probes ok%s, %d violation(s), %d known finding(s), %.1fs (load %.1fs, vcgen %.1fs)",
+		opts.Prop, len(frs), nDischarged, nProof, nProbeOK, nProbe, bnd, nviol, len(rep.Known), rep.Wall, loadS, genS)
 	return rep
 }
 
